@@ -779,57 +779,70 @@ def _first_diff(a, b, path=()):
     return None
 
 
-def classify(impl, spec):
-    """a stable key naming what disagrees first: section / field / the form involved"""
-    d = _first_diff(impl, spec)
-    if d is None:
+HDR_FIELDS = ['unit_length', 'is64', 'version', 'unit_type', 'debug_abbrev_offset', 'address_size', 'extra',
+              'cu_offset', 'cu_die_offset', 'size']
+DIE_FIELDS = ['offset', 'size', 'abbrev_code', 'tag', 'has_children', 'attributes']
+ATTR_FIELDS = ['name', 'form', 'value', 'raw_value', 'offset', 'indirection_length']
+
+
+def _is_err(x):
+    return isinstance(x, list) and len(x) == 2 and x[0] == 'err' and isinstance(x[1], str)
+
+
+def classify(impl, spec, hint=None):
+    """a stable key naming what disagrees first (section / field / form involved), and the two differing values.
+    hint: the form under test of a one_form case."""
+    if impl == spec:
         return None, None
-    path, a, b = d
-    sec = 'info' if path and path[0] == 0 else 'types'
-    def err_name(x):
-        return x[1] if isinstance(x, list) and len(x) == 2 and x[0] == 'err' else None
-    if len(path) >= 3 and path[2] == 0:
-        return '%s/header-field-%s' % (sec, path[3] if len(path) > 3 else '?'), d
-    if len(path) >= 3 and path[2] == 1:
-        # inside the entry list of a unit
-        try:
-            rel_s = spec[path[0]][path[1]][1][path[3]]
-        except Exception:
-            rel_s = None
-        if err_name(a):
-            # the whole entry list failed in the implementation: name the first form that the spec has and the model of the
-            # failure cannot tell; use the exception
-            forms = sorted({at[1] for r in spec[path[0]][path[1]][1] for at in r[0][5]}, key=str) if len(path) == 3 else []
-            return '%s/entries-raise-%s' % (sec, err_name(a)), d
-        if len(path) >= 5 and rel_s is not None:
-            what = {0: 'entry', 1: 'children', 2: 'terminator', 3: 'parent', 4: 'reference'}.get(path[4], '?')
-            if path[4] == 0 and len(path) >= 7 and path[5] == 5:
-                try:
-                    at = rel_s[0][5][path[6]]
-                    field = {0: 'name', 1: 'form', 2: 'value', 3: 'raw', 4: 'offset', 5: 'indirection'}.get(path[7] if len(path) > 7 else -1, 'attr')
-                    return '%s/attr-%s-%s' % (sec, field, at[1]), d
-                except Exception:
-                    pass
-            if path[4] == 0:
-                # a wrong size/offset of an entry: blame the first attribute form whose successor is misplaced
-                try:
-                    impl_attrs = impl[path[0]][path[1]][1][path[3]][0][5]
-                    for ia, sa in zip(impl_attrs, rel_s[0][5]):
+    sfx = ('-' + str(hint)) if hint is not None else ''
+    for si in range(2):
+        sec = 'info' if si == 0 else 'types'
+        ip, sp = impl[si], spec[si]
+        if ip == sp:
+            continue
+        if _is_err(ip):
+            return '%s/units-raise-%s%s' % (sec, ip[1], sfx), (ip, sp)
+        if len(ip) != len(sp):
+            return '%s/unit-count%s' % (sec, sfx), (len(ip), len(sp))
+        for iu, su in zip(ip, sp):
+            if iu == su:
+                continue
+            for f, a, b in zip(HDR_FIELDS, iu[0], su[0]):
+                if a != b:
+                    return '%s/header-%s' % (sec, f), (a, b)
+            if _is_err(iu[1]):
+                return '%s/entries-raise-%s%s' % (sec, iu[1][1], sfx), (iu[1], '...')
+            if _is_err(su[1]) or not isinstance(su[1], list):
+                return '%s/spec-shape' % sec, (iu[1], su[1])
+            for ir, sr in zip(iu[1], su[1]):
+                if ir == sr:
+                    continue
+                idie, sdie = ir[0], sr[0]
+                if idie != sdie:
+                    # attributes first: a wrong operand width shows up as a wrong raw value / offset of the next one
+                    for ia, sa in zip(idie[5], sdie[5]):
                         if ia != sa:
-                            return '%s/entry-%s-after-%s' % (sec, {0: 'offset', 1: 'size', 2: 'code', 3: 'tag', 4: 'child-flag'}.get(path[5] if len(path) > 5 else -1, 'field'), sa[1]), d
-                except Exception:
-                    pass
-                return '%s/entry-field-%s' % (sec, path[5] if len(path) > 5 else '?'), d
-            if path[4] == 4:
-                try:
-                    at = rel_s[0][5][path[5]]
-                    return '%s/reference-%s%s' % (sec, at[1], ('-raises-' + err_name(a)) if err_name(a) else ''), d
-                except Exception:
-                    pass
-            return '%s/%s' % (sec, what), d
-    if err_name(a):
-        return '%s/raises-%s' % (sec, err_name(a)), d
-    return '%s/shape' % sec, d
+                            for f, x, y in zip(ATTR_FIELDS, ia, sa):
+                                if x != y:
+                                    e = ('-raises-' + x[1]) if _is_err(x) else ''
+                                    return '%s/attr-%s-%s%s' % (sec, f, sa[1], e), (ia, sa)
+                    if len(idie[5]) != len(sdie[5]):
+                        return '%s/attr-count%s' % (sec, sfx), (idie, sdie)
+                    for f, x, y in zip(DIE_FIELDS, idie, sdie):
+                        if x != y:
+                            return '%s/entry-%s%s' % (sec, f, sfx), (idie, sdie)
+                for f, i in (('children', 1), ('terminator', 2), ('parent', 3)):
+                    if ir[i] != sr[i]:
+                        e = ('-raises-' + ir[i][1]) if _is_err(ir[i]) else ''
+                        return '%s/%s%s' % (sec, f, e), (ir[:4], sr[:4])
+                for x, y, sa in zip(ir[4], sr[4], sdie[5]):
+                    if x != y:
+                        e = ('-raises-' + x[1]) if _is_err(x) else ''
+                        return '%s/reference-%s%s' % (sec, sa[1], e), (x, y, sdie[0])
+                return '%s/entry-shape' % sec, (ir, sr)
+            if len(iu[1]) != len(su[1]):
+                return '%s/entry-count%s' % (sec, sfx), (len(iu[1]), len(su[1]))
+    return 'shape', (None, None)
 
 
 def evaluate(ctx, cases):
@@ -843,16 +856,22 @@ def evaluate(ctx, cases):
         all_secs = [w[0], info, w[3], types, w[4], w[5], w[6], w[7], w[8], w[9]]
         impl = impl_report(all_secs)
         in_domain = all(wf)
-        key, d = classify(impl, spec)
+        hint = None
+        if kind == 'one_form':
+            try:
+                hint = spec[0][0][1][0][0][5][4][1]
+            except Exception:
+                hint = '?'
+        key, d = classify(impl, spec, hint)
         nent = sum(len(u[1]) for part in spec for u in part if isinstance(u[1], list))
         ctx.bump('kind', kind)
         ctx.bump('units', len(w[1]) + len(w[2]))
         ctx.bump('entries', nent if nent < 10 else ('10-49' if nent < 50 else '50+'))
         ctx.bump('wf', ''.join(str(int(x)) for x in wf))
         if kind == 'one_form':
-            ctx.bump('form', spec[0][0][1][0][0][5][4][1] if spec[0] and isinstance(spec[0][0][1], list) else '?')
+            ctx.bump('form', hint)
         detail = None
         if d is not None:
-            detail = {'first_difference_path': list(d[0]), 'impl': d[1], 'spec': d[2]}
+            detail = {'first_difference': list(d)}
         ctx.record(kind, w, impl=impl, spec=spec, model=model, in_domain=in_domain, nontrivial=nent >= 1,
                    key=key, detail=detail)
